@@ -17,7 +17,9 @@ namespace C2pa.C31
 /-! ## 1. The registry refines the abstract live-handle map -/
 
 inductive RegOp
-  | track (a : Nat) (e : Entry) | validate (a : Nat) (t : Ty) | untrack (a : Nat) (t : Ty) | free (a : Nat)
+  | track (a : Nat) (e : Entry) | validate (a : Nat) (t : Ty) | untrack (a : Nat) (t : Ty)
+  /-- `t = .none`: `PointerRegistry::free`; otherwise `PointerRegistry::free_typed` -/
+  | free (a : Nat) (t : Ty)
 
 inductive RegRes
   | done | found (e : Entry) | freed (e : Option Entry) | err (x : RegErr)
@@ -29,7 +31,7 @@ def regStep (r : Reg) : RegOp → Reg × RegRes
     | .ok e => (r, .found e) | .error x => (r, .err x)
   | .untrack a t => match untrack r a t with
     | .ok (r', e) => (r', .found e) | .error x => (r, .err x)
-  | .free a => match free r a with
+  | .free a t => match free r a t with
     | .ok (r', e) => (r', .freed e) | .error x => (r, .err x)
 
 /-- The abstract machine: a total map from addresses to live handles. -/
@@ -49,10 +51,10 @@ def absStep (m : AMap) : RegOp → AMap × RegRes
     | .ok e => (m, .found e) | .error x => (m, .err x)
   | .untrack a t => match absCheck m a t with
     | .ok e => (m.set a none, .found e) | .error x => (m, .err x)
-  | .free a =>
+  | .free a t =>
     if a = 0 then (m, .freed none)
     else match m a with
-      | some e => (m.set a none, .freed (some e))
+      | some e => if t = .none ∨ e.ty = t then (m.set a none, .freed (some e)) else (m, .err .wrongType)
       | none => (m, .err .untracked)
 
 def runReg : Reg → List RegOp → Reg × List RegRes
@@ -90,15 +92,17 @@ theorem regStep_refines (r : Reg) (m : AMap) (h : ∀ a, r.get a = m a) (o : Reg
         · simp only [ha, ht, if_false, if_true, true_and]
           intro b; rw [Reg.get_remove]; simp [AMap.set, h]
         · simp [ha, ht, h]
-  | free a =>
+  | free a t =>
     simp only [regStep, absStep, free, h a]
     by_cases ha : a = 0
     · simp [ha, h]
     · cases hm : m a with
       | none => simp [ha, h]
       | some e =>
-        simp only [ha, if_false, true_and]
-        intro b; rw [Reg.get_remove]; simp [AMap.set, h]
+        by_cases ht : t = .none ∨ e.ty = t
+        · simp only [ha, ht, if_false, if_true, true_and]
+          intro b; rw [Reg.get_remove]; simp [AMap.set, h]
+        · simp [ha, ht, h]
 
 /-- **Any sequence of registry operations behaves like the abstract live-handle map**:
 same answers, and the registry content is the map. -/
@@ -119,8 +123,10 @@ theorem registry_refines_map_init (ops : List RegOp) :
   registry_refines_map ops [] (fun _ => none) (fun _ => rfl)
 
 example :
-    (runReg [] [.track 5 ⟨.reader, 0⟩, .validate 5 .builder, .free 5, .free 5, .track 5 ⟨.builder, 1⟩, .free 5]).2
-      = [.done, .err .wrongType, .freed (some ⟨.reader, 0⟩), .err .untracked, .done, .freed (some ⟨.builder, 1⟩)] := by
+    (runReg [] [.track 5 ⟨.reader, 0⟩, .validate 5 .builder, .free 5 .builder, .free 5 .reader, .free 5 .none,
+                .track 5 ⟨.builder, 1⟩, .free 5 .none]).2
+      = [.done, .err .wrongType, .err .wrongType, .freed (some ⟨.reader, 0⟩), .err .untracked, .done,
+         .freed (some ⟨.builder, 1⟩)] := by
   decide
 
 
@@ -207,11 +213,33 @@ def isReleaseRow (row : FnRow) : Bool :=
   row.events.all (fun e => (e.use == .free && e.p == 0) || e.use == .opaque) &&
   row.events.any (fun e => e.use == .free)
 
-theorem runEvents_release (row : FnRow) (args : List Arg) (es : List Event) (w : World) (fr : List Nat)
+theorem evStep_free_untracked (row : FnRow) (args : List Arg) (w : World) (e : Event)
+    (hu : e.use = .free) (ha : (argOf args e.p).a ≠ 0) (hg : w.reg.get (argOf args e.p).a = none) :
+    evStep row args w e = .error (.err .untracked) := by
+  unfold evStep
+  simp only [hu, free, ha, if_false, hg]
+  rfl
+
+theorem evStep_free_wrongType (row : FnRow) (args : List Arg) (w : World) (e : Event) (ent : Entry)
+    (hu : e.use = .free) (ha : (argOf args e.p).a ≠ 0) (hg : w.reg.get (argOf args e.p).a = some ent)
+    (ht : e.ty ≠ .none) (hne : ent.ty ≠ e.ty) :
+    evStep row args w e = .error (.err .wrongType) := by
+  unfold evStep
+  have hno : ¬ (e.ty = .none ∨ ent.ty = e.ty) := by
+    rintro (h | h)
+    · exact ht h
+    · exact hne h
+  simp only [hu, free, ha, if_false, hg, hno]
+  rfl
+
+/-- A release row whose release event is refused stops there with the world untouched
+(only `opaque` uses can precede it). -/
+theorem runEvents_release_stop (row : FnRow) (args : List Arg) (es : List Event) (w : World) (fr : List Nat)
+    (s : Stop)
     (hall : es.all (fun e => (e.use == .free && e.p == 0) || e.use == .opaque) = true)
-    (hg : w.reg.get (argOf args 0).a = none) (ha : (argOf args 0).a ≠ 0)
-    (hany : es.any (fun e => e.use == .free) = true) :
-    runEvents row args w fr es = (w, fr, some (.err .untracked)) := by
+    (hany : es.any (fun e => e.use == .free) = true)
+    (hstop : ∀ e ∈ es, e.use = .free → e.p = 0 → evStep row args w e = .error s) :
+    runEvents row args w fr es = (w, fr, some s) := by
   induction es generalizing fr with
   | nil => simp at hany
   | cons e es ih =>
@@ -219,11 +247,7 @@ theorem runEvents_release (row : FnRow) (args : List Arg) (es : List Event) (w :
     obtain ⟨he, hrest⟩ := hall
     rcases he with ⟨hu, hp⟩ | hu
     · unfold runEvents
-      have : evStep row args w e = .error (.err .untracked) := by
-        unfold evStep
-        simp only [hu, hp, free, ha, if_false, hg]
-        rfl
-      rw [this]
+      rw [hstop e (List.mem_cons_self ..) hu hp]
     · unfold runEvents
       have : evStep row args w e = .ok (w, []) := by unfold evStep; simp only [hu]
       rw [this]
@@ -233,7 +257,7 @@ theorem runEvents_release (row : FnRow) (args : List Arg) (es : List Event) (w :
         rcases hany with h | h
         · rw [hu] at h; cases h
         · exact h
-      exact ih fr hrest hany'
+      exact ih fr hrest hany' (fun e' he' => hstop e' (List.mem_cons_of_mem _ he'))
 
 /-- Releasing an address that is not tracked: error value, `UntrackedPointer` stored, no
 cleanup runs, nothing changes. -/
@@ -244,7 +268,26 @@ theorem release_untracked_errors (w : World) (c : Call) (hr : isReleaseRow c.row
   simp only [Bool.and_eq_true] at hr
   obtain ⟨⟨_, hall⟩, hany⟩ := hr
   unfold step
-  rw [runEvents_release c.row c.args c.row.events w [] hall hg ha hany]
+  rw [runEvents_release_stop c.row c.args c.row.events w [] (.err .untracked) hall hany
+    (fun e _ hu hp => evStep_free_untracked c.row c.args w e hu (by rw [hp]; exact ha) (by rw [hp]; exact hg))]
+
+/-- **A type-specific release function refuses a handle of another type**: the error value is
+returned with `WrongPointerType` stored, no cleanup runs and the handle stays tracked (it can
+still be used and released through the right function).  `t` is the type check carried by the
+row's release event (`cimpl_free!(p, T)`); `table_typed_release_checked` shows which rows
+carry which. -/
+theorem typed_release_wrong_type_errors (w : World) (c : Call) (t : Ty) (ent : Entry)
+    (hr : isReleaseRow c.row = true)
+    (ht : ∀ e ∈ c.row.events, e.use = .free → e.ty = t) (htn : t ≠ .none)
+    (ha : (argOf c.args 0).a ≠ 0) (hg : w.reg.get (argOf c.args 0).a = some ent) (hne : ent.ty ≠ t) :
+    step w c = (w, { fail := true, err := .wrongType, freed := [] }) := by
+  unfold isReleaseRow at hr
+  simp only [Bool.and_eq_true] at hr
+  obtain ⟨⟨_, hall⟩, hany⟩ := hr
+  unfold step
+  rw [runEvents_release_stop c.row c.args c.row.events w [] (.err .wrongType) hall hany
+    (fun e he hu hp => evStep_free_wrongType c.row c.args w e ent hu (by rw [hp]; exact ha)
+      (by rw [hp]; exact hg) (by rw [ht e he hu]; exact htn) (by rw [ht e he hu]; exact hne))]
 
 theorem finish_get_none (w : World) (c : Call) (fr : List Nat) (a : Nat) (ha : a ≠ 0)
     (hna : a ∉ c.allocs) (hg : w.reg.get a = none) : (finish w c fr).1.reg.get a = none := by
@@ -272,18 +315,18 @@ theorem finish_get_none (w : World) (c : Call) (fr : List Nat) (a : Nat) (ha : a
       simp only [allocStrings]
       have hb : b ≠ a := fun h => hl (h ▸ List.mem_cons_self ..)
       exact ih _ (fun h => hl (List.mem_cons_of_mem _ h)) (hAT w _ b hb hg)
-  have hFE : ∀ (l : List Nat) (w : World), w.reg.get a = none → (freeElems w l).1.reg.get a = none := by
-    intro l
+  have hFE : ∀ (t : Ty) (l : List Nat) (w : World), w.reg.get a = none → (freeElems t w l).1.reg.get a = none := by
+    intro t l
     induction l with
     | nil => intro w hg; exact hg
     | cons b bs ih =>
       intro w hg
       unfold freeElems
-      cases hf : free w.reg b with
+      cases hf : free w.reg b t with
       | error x => simpa using ih w hg
       | ok p =>
         obtain ⟨r, oe⟩ := p
-        rcases (free_ok_iff _ _ _ _).1 hf with ⟨_, _, ho⟩ | ⟨_, ent, _, ho, hr⟩
+        rcases (free_ok_iff _ _ _ _ _).1 hf with ⟨_, _, ho⟩ | ⟨_, ent, _, ho, hr, _⟩
         · subst ho; simpa using ih w hg
         · subst ho; subst hr
           have : Reg.get (w.reg.remove b) a = none := by rw [Reg.get_remove]; simp [hg]
@@ -293,7 +336,7 @@ theorem finish_get_none (w : World) (c : Call) (fr : List Nat) (a : Nat) (ha : a
   · simp only [hfa, if_true]
     cases har : w.arrayAt (argOf c.args 0).a with
     | none => exact hg
-    | some ar => exact hFE ar.elems w hg
+    | some ar => exact hFE c.row.elemTy ar.elems w hg
   · have hfa' : c.row.freesArray = false := by simpa using hfa
     simp only [hfa', Bool.false_eq_true, if_false]
     cases hr : c.row.ret <;> simp only
@@ -362,27 +405,31 @@ theorem run_get_none (cs : List Call) (w : World) (a : Nat) (ha : a ≠ 0)
     exact ih _ (fun c' hc' => hna c' (List.mem_cons_of_mem _ hc'))
       (step_get_none w c a ha (hna c (List.mem_cons_self ..)) hg)
 
-/-- After a release call on `a` (whatever its result) `a` is not tracked. -/
+/-- After a release call on `a` that was not refused for its type, `a` is not tracked (it was
+released now, or it was not tracked before). -/
 theorem release_then_untracked (w : World) (c : Call) (hr : isReleaseRow c.row = true)
-    (ha : (argOf c.args 0).a ≠ 0) : (step w c).1.reg.get (argOf c.args 0).a = none := by
+    (ha : (argOf c.args 0).a ≠ 0) (hwt : (step w c).2.err ≠ .wrongType) :
+    (step w c).1.reg.get (argOf c.args 0).a = none := by
   cases hg : w.reg.get (argOf c.args 0).a with
   | none => rw [release_untracked_errors w c hr ha hg]; exact hg
   | some ent =>
     unfold isReleaseRow at hr
     simp only [Bool.and_eq_true, Bool.not_eq_true', Bool.or_eq_true, beq_iff_eq] at hr
     obtain ⟨⟨⟨⟨hfa, _⟩, hret⟩, hall⟩, hany⟩ := hr
-    -- the world after the guard events has `a` untracked; a release row tracks nothing afterwards
+    -- after the guard events either `a` is untracked or the sequence stopped on the type check;
+    -- a release row tracks nothing afterwards
     have key : ∀ (es : List Event) (w : World) (fr : List Nat),
         es.all (fun e => (e.use == .free && e.p == 0) || e.use == .opaque) = true →
         (es.any (fun e => e.use == .free) = true ∨ w.reg.get (argOf c.args 0).a = none) →
-        (runEvents c.row c.args w fr es).1.reg.get (argOf c.args 0).a = none := by
+        (runEvents c.row c.args w fr es).1.reg.get (argOf c.args 0).a = none ∨
+        (runEvents c.row c.args w fr es).2.2 = some (.err .wrongType) := by
       intro es
       induction es with
       | nil =>
         intro w fr _ h
         rcases h with h | h
         · simp at h
-        · exact h
+        · exact Or.inl h
       | cons e es ih =>
         intro w fr hall h
         simp only [List.all_cons, Bool.and_eq_true, Bool.or_eq_true, beq_iff_eq] at hall
@@ -391,11 +438,18 @@ theorem release_then_untracked (w : World) (c : Call) (hr : isReleaseRow c.row =
         rcases he with ⟨hu, hp⟩ | hu
         · cases hev : evStep c.row c.args w e with
           | error s =>
-            -- free failed: `a` was untracked already
+            -- release refused: `a` was untracked already, or it has another type
             unfold evStep at hev
             simp only [hu, hp] at hev
-            cases hf : free w.reg (argOf c.args 0).a with
-            | error x => exact (free_err _ _ _ hf).2.2
+            cases hf : free w.reg (argOf c.args 0).a e.ty with
+            | error x =>
+              obtain ⟨_, h1 | h1⟩ := free_err _ _ _ _ hf
+              · exact Or.inl h1.2
+              · right
+                simp only [hf, Except.error.injEq] at hev
+                subst hev
+                rw [h1.1]
+                rfl
             | ok p => obtain ⟨r, oe⟩ := p; cases oe <;> simp [hf] at hev
           | ok p =>
             obtain ⟨w', f⟩ := p
@@ -408,11 +462,11 @@ theorem release_then_untracked (w : World) (c : Call) (hr : isReleaseRow c.row =
               -- free succeeded without releasing: only possible for NULL
               unfold evStep at hev
               simp only [hu, hp] at hev
-              cases hf : free w.reg (argOf c.args 0).a with
+              cases hf : free w.reg (argOf c.args 0).a e.ty with
               | error x => simp [hf] at hev
               | ok p =>
                 obtain ⟨r, oe⟩ := p
-                rcases (free_ok_iff _ _ _ _).1 hf with ⟨h0, _, _⟩ | ⟨_, ent', _, ho, _⟩
+                rcases (free_ok_iff _ _ _ _ _).1 hf with ⟨h0, _, _⟩ | ⟨_, ent', _, ho, _⟩
                 · exact absurd h0 ha
                 · subst ho; simp [hf] at hev
             | released ent' _ _ => simp [Reg.get_remove]
@@ -427,10 +481,10 @@ theorem release_then_untracked (w : World) (c : Call) (hr : isReleaseRow c.row =
             · exact h
           · right; exact h
     have hre := key c.row.events w [] hall (Or.inl hany)
-    unfold step
+    unfold step at hwt ⊢
     rcases hrun : runEvents c.row c.args w [] c.row.events with ⟨w1, fr, st⟩
-    rw [hrun] at hre
-    simp only at hre
+    rw [hrun] at hre hwt
+    simp only at hre hwt
     have hfin : ∀ fr, (finish w1 c fr).1 = w1 := by
       intro fr
       unfold finish
@@ -438,15 +492,30 @@ theorem release_then_untracked (w : World) (c : Call) (hr : isReleaseRow c.row =
       rcases hret with h | h <;> simp [h]
     cases st with
     | none =>
+      have hre' : w1.reg.get (argOf c.args 0).a = none := by
+        rcases hre with h | h
+        · exact h
+        · cases h
       simp only
       by_cases hin : c.inner = true
-      · simp only [hin, if_true, hfin]; exact hre
-      · simp only [hin]; exact hre
+      · simp only [hin, if_true, hfin]; exact hre'
+      · simp only [hin]; exact hre'
     | some s =>
       cases s with
-      | err e => exact hre
-      | silent => exact hre
-      | okEarly => exact hre
+      | err e =>
+        rcases hre with h | h
+        · exact h
+        · simp only [Option.some.injEq, Stop.err.injEq] at h
+          subst h
+          exact absurd rfl hwt
+      | silent =>
+        rcases hre with h | h
+        · exact h
+        · cases h
+      | okEarly =>
+        rcases hre with h | h
+        · exact h
+        · cases h
       | ub =>
         -- a release row has no raw use, `ub` cannot be the result
         exfalso
@@ -470,7 +539,7 @@ theorem release_then_untracked (w : World) (c : Call) (hr : isReleaseRow c.row =
               unfold evStep at hev
               rcases he with ⟨hu, _⟩ | hu
               · simp only [hu] at hev
-                cases hf : free w.reg (argOf c.args e.p).a with
+                cases hf : free w.reg (argOf c.args e.p).a e.ty with
                 | error x => simp [hf] at hev
                 | ok p => obtain ⟨r, oe⟩ := p; cases oe <;> simp [hf] at hev
               · simp only [hu] at hev; cases hev
@@ -479,31 +548,81 @@ theorem release_then_untracked (w : World) (c : Call) (hr : isReleaseRow c.row =
         rw [hrun] at h2
         exact h2 rfl
       | alt =>
+        have hre' : w1.reg.get (argOf c.args 0).a = none := by
+          rcases hre with h | h
+          · exact h
+          · cases h
         simp only
         by_cases hin : c.inner = true
-        · simp only [hin, if_true, hfin]; exact hre
-        · simp only [hin]; exact hre
+        · simp only [hin, if_true, hfin]; exact hre'
+        · simp only [hin]; exact hre'
+
+/-- A release call that succeeds stores no error (in particular it was not refused for its type). -/
+theorem release_ok_no_error (w : World) (c : Call) (hr : isReleaseRow c.row = true)
+    (hok : (step w c).2.fail = false) : (step w c).2.err = .none := by
+  unfold isReleaseRow at hr
+  simp only [Bool.and_eq_true, Bool.not_eq_true', Bool.or_eq_true, beq_iff_eq] at hr
+  obtain ⟨⟨⟨⟨hfa, hsl⟩, hret⟩, _⟩, _⟩ := hr
+  have hfin : ∀ w fr, (finish w c fr).2.err = .none := by
+    intro w fr
+    unfold finish
+    simp only [hfa, Bool.false_eq_true, if_false]
+    rcases hret with h | h <;> simp [h, hsl]
+  unfold step at hok ⊢
+  rcases hrun : runEvents c.row c.args w [] c.row.events with ⟨w1, fr, st⟩
+  rw [hrun] at hok
+  cases st with
+  | none =>
+    simp only at hok ⊢
+    by_cases hin : c.inner = true
+    · simp only [hin, if_true, hfin]
+    · simp [hin] at hok
+  | some s =>
+    cases s with
+    | err e => simp at hok
+    | silent => simp at hok
+    | okEarly => rfl
+    | ub => rfl
+    | alt =>
+      simp only at hok ⊢
+      by_cases hin : c.inner = true
+      · simp only [hin, if_true, hfin]
+      · simp [hin] at hok
 
 /-- **A second free of the same handle reports an error unless the address has been reissued**
 — for every handle that lives in the registry (all handle types, strings, byte arrays).
 `_partial`: the statement also speaks about the string arrays of
 `c2pa_*_supported_mime_types`, for which the code falsifies it (section 8,
 `double_free_errors_everywhere_false`).
-After a release call on `a`, and after any further calls during which the allocator never
-answers `a` again, another release call on `a` returns the error value with
-`UntrackedPointer` stored, runs no cleanup and changes nothing. -/
+After a release call on `a` that was not refused for the type of `a` (`hwt`; a refused call
+released nothing and is not a "first free", see `typed_release_wrong_type_errors`), and after
+any further calls during which the allocator never answers `a` again, another release call on
+`a` — through any release function — returns the error value with `UntrackedPointer` stored,
+runs no cleanup and changes nothing. -/
 theorem double_free_errors_unless_reissued_partial (w : World) (c1 c2 : Call) (mid : List Call) (a : Nat)
     (h1 : isReleaseRow c1.row = true) (h2 : isReleaseRow c2.row = true)
     (ha : a ≠ 0) (ha1 : (argOf c1.args 0).a = a) (ha2 : (argOf c2.args 0).a = a)
+    (hwt : (step w c1).2.err ≠ .wrongType)
     (hmid : ∀ c ∈ mid, a ∉ c.allocs) :
     let w2 := (run (step w c1).1 mid).1
     step w2 c2 = (w2, { fail := true, err := .untracked, freed := [] }) := by
   intro w2
   have hg1 : (step w c1).1.reg.get a = none := by
-    have := release_then_untracked w c1 h1 (by rw [ha1]; exact ha)
+    have := release_then_untracked w c1 h1 (by rw [ha1]; exact ha) hwt
     rwa [ha1] at this
   have hg2 : w2.reg.get a = none := run_get_none mid _ a ha hmid hg1
   exact release_untracked_errors w2 c2 h2 (by rw [ha2]; exact ha) (by rw [ha2]; exact hg2)
+
+/-- The reading "the first free succeeded": same conclusion. -/
+theorem double_free_after_successful_free_errors (w : World) (c1 c2 : Call) (mid : List Call) (a : Nat)
+    (h1 : isReleaseRow c1.row = true) (h2 : isReleaseRow c2.row = true)
+    (ha : a ≠ 0) (ha1 : (argOf c1.args 0).a = a) (ha2 : (argOf c2.args 0).a = a)
+    (hok : (step w c1).2.fail = false)
+    (hmid : ∀ c ∈ mid, a ∉ c.allocs) :
+    let w2 := (run (step w c1).1 mid).1
+    step w2 c2 = (w2, { fail := true, err := .untracked, freed := [] }) :=
+  double_free_errors_unless_reissued_partial w c1 c2 mid a h1 h2 ha ha1 ha2
+    (by rw [release_ok_no_error w c1 h1 hok]; decide) hmid
 
 /-- The "unless": once the allocator has reissued the address, the same call releases the
 new handle (and the first release did release the first one). -/
@@ -561,7 +680,7 @@ theorem runEvents_no_ub (row : FnRow) (args : List Arg) (es : List Event) (seen 
         | error x => simp [hv] at hev
         | ok p => simp [hv] at hev
       case free =>
-        cases hv : free w.reg (argOf args e.p).a with
+        cases hv : free w.reg (argOf args e.p).a e.ty with
         | error x => simp [hv] at hev
         | ok p => obtain ⟨r, oe⟩ := p; cases oe <;> simp [hv] at hev
       case nullck => split at hev <;> cases hev
@@ -718,7 +837,7 @@ theorem runEvents_err_ne_none (row : FnRow) (args : List Arg) (es : List Event) 
         | ok x => simp [hv] at hev
         | error x => simp [hv] at hev; subst hev; cases x <;> simp [RegErr.toLast]
       case free =>
-        cases hv : free w.reg (argOf args ev.p).a with
+        cases hv : free w.reg (argOf args ev.p).a ev.ty with
         | ok p => obtain ⟨r, oe⟩ := p; cases oe <;> simp [hv] at hev
         | error x => simp [hv] at hev; subst hev; cases x <;> simp [RegErr.toLast]
       case nullck => split at hev <;> simp at hev; subst hev; simp
@@ -755,7 +874,7 @@ theorem runEvents_silent (row : FnRow) (args : List Arg) (es : List Event) (w : 
         | ok x => simp [hv] at hev
         | error x => simp [hv] at hev
       case free =>
-        cases hv : free w.reg (argOf args ev.p).a with
+        cases hv : free w.reg (argOf args ev.p).a ev.ty with
         | ok p => obtain ⟨r, oe⟩ := p; cases oe <;> simp [hv] at hev
         | error x => simp [hv] at hev
       all_goals (first | (split at hev <;> first | cases hev | (split at hev <;> cases hev)) | cases hev)
@@ -862,7 +981,7 @@ theorem runEvents_bad_handle (row : FnRow) (args : List Arg) (g : Event)
             | ok x => simp [hv] at hev
             | error x => simp [hv] at hev
           case free =>
-            cases hv : free w.reg (argOf args ev.p).a with
+            cases hv : free w.reg (argOf args ev.p).a ev.ty with
             | ok p => obtain ⟨r, oe⟩ := p; cases oe <;> simp [hv] at hev
             | error x => simp [hv] at hev
           all_goals (first | (split at hev <;> first | cases hev | (split at hev <;> cases hev)) | cases hev)
@@ -1037,5 +1156,318 @@ example :
               ⟨Gen.fn_c2pa_free_string_array, [⟨4, false⟩, ⟨1, false⟩], true, []⟩,
               ⟨Gen.fn_c2pa_free_string_array, [⟨4, false⟩, ⟨1, false⟩], true, []⟩]).2.map
         (fun o => (o.ub, o.freed))) = [(false, []), (false, [2, 3, 4]), (true, [])] := by decide
+
+/-! ## 9. Type check of the release functions -/
+
+/-- The type a release function's pointer parameter is declared with: handle types as
+declared, `char*` = a library string, `unsigned char*` = library bytes; `void*` (`c2pa_free`,
+`cimpl_free`) declares none. -/
+def declaredReleaseTy (p : Param) : Ty :=
+  match p.kind with
+  | .handle => p.ty
+  | .anyptr => .cstring
+  | .bytes => .bytes
+  | _ => .none
+
+/-- Decided on the regenerated table: every release function checks, in the registry, exactly
+the type its parameter is declared with; only the `void*` functions are universal. -/
+theorem table_typed_release_checked :
+    (Gen.ffiGuards.all fun row => !isReleaseRow row ||
+      row.events.all (fun e => e.use != .free || decide (e.ty = declaredReleaseTy (paramOf row 0)))) = true := by
+  decide +kernel
+
+/-- **A handle of the wrong type passed to an exported type-specific release function returns
+the error value with `WrongPointerType` stored; nothing is released and the handle stays
+live.** -/
+theorem exported_typed_release_rejects_wrong_type (w : World) (c : Call) (ent : Entry)
+    (hrow : c.row ∈ Gen.ffiGuards) (hr : isReleaseRow c.row = true)
+    (htn : declaredReleaseTy (paramOf c.row 0) ≠ .none)
+    (ha : (argOf c.args 0).a ≠ 0) (hg : w.reg.get (argOf c.args 0).a = some ent)
+    (hne : ent.ty ≠ declaredReleaseTy (paramOf c.row 0)) :
+    step w c = (w, { fail := true, err := .wrongType, freed := [] }) := by
+  have h := (List.all_eq_true.1 table_typed_release_checked) c.row hrow
+  rw [hr] at h
+  simp only [Bool.not_true, Bool.false_or, List.all_eq_true, Bool.or_eq_true, bne_iff_ne, ne_eq,
+    decide_eq_true_eq] at h
+  refine typed_release_wrong_type_errors w c _ ent hr ?_ htn ha hg hne
+  intro e he hu
+  rcases h e he with h1 | h1
+  · exact absurd hu h1
+  · exact h1
+
+-- non-vacuity on real rows: `c2pa_reader_free(builder)` is refused and the builder survives;
+-- `c2pa_builder_free` then releases it
+example :
+    let w : World := { reg := [(5, ⟨.builder, 0⟩)], next := 1 }
+    let c : Call := ⟨Gen.fn_c2pa_reader_free, [⟨5, false⟩], true, []⟩
+    let c' : Call := ⟨Gen.fn_c2pa_builder_free, [⟨5, false⟩], true, []⟩
+    isReleaseRow c.row = true ∧ declaredReleaseTy (paramOf c.row 0) = .reader ∧
+    (step w c).2.fail = true ∧ (step w c).2.err = .wrongType ∧ (step w c).2.freed = [] ∧
+    (step w c).1.reg.get 5 = some ⟨.builder, 0⟩ ∧
+    (step (step w c).1 c').2.fail = false ∧ (step (step w c).1 c').2.freed = [5] := by decide
+
+/-- The universal release functions (`void*` parameter: `c2pa_free`, `cimpl_free`) do not look
+at the type — by design and by their declaration ("frees any pointer allocated by this
+library"): there is no declared type a handle could be wrong for. -/
+theorem universal_release_ignores_type :
+    ∃ (w : World) (c : Call), c.row = Gen.fn_c2pa_free ∧ isReleaseRow c.row = true ∧
+      declaredReleaseTy (paramOf c.row 0) = .none ∧
+      w.reg.get (argOf c.args 0).a = some ⟨.builder, 0⟩ ∧
+      (step w c).2.fail = false ∧ (step w c).2.freed = [(argOf c.args 0).a] :=
+  ⟨{ reg := [(5, ⟨.builder, 0⟩)], next := 1 }, ⟨Gen.fn_c2pa_free, [⟨5, false⟩], true, []⟩,
+    rfl, by decide, by decide, by decide, by decide, by decide⟩
+
+/-! ## 10. Exactly-once release over the exported functions -/
+
+theorem run_never_ub (cs : List Call) (w : World)
+    (ht : ∀ c ∈ cs, c.row ∈ Gen.ffiGuards ∧ c.row.params.any (·.exc) = false) :
+    ∀ o ∈ (run w cs).2, o.ub = false := by
+  induction cs generalizing w with
+  | nil => intro o ho; simp [run] at ho
+  | cons c cs ih =>
+    intro o ho
+    simp only [run] at ho
+    rcases List.mem_cons.1 ho with h | h
+    · subst h
+      exact exported_calls_never_ub w c (ht c (List.mem_cons_self ..)).1 (ht c (List.mem_cons_self ..)).2
+    · exact ih _ (fun c' hc' => ht c' (List.mem_cons_of_mem _ hc')) o h
+
+/-- **`free_once` for sequences over the exported functions** (every row of the regenerated
+table except the one with the reviewed exception, `c2pa_free_string_array`): no hypothesis
+about undefined behaviour is left — only the allocator assumption (`allocBad = false`: every
+address the allocator answered was not live at that moment; `allocTracked_ok_iff`). -/
+theorem free_once_table (cs : List Call)
+    (ht : ∀ c ∈ cs, c.row ∈ Gen.ffiGuards ∧ c.row.params.any (·.exc) = false)
+    (ha : ∀ o ∈ (run {} cs).2, o.allocBad = false) :
+    let w := (run {} cs).1
+    (w.cleanups.map (·.1)).Nodup ∧
+    ∀ i, i ∈ w.cleanups.map (·.1) ↔
+      (i < w.next ∧ i ∉ w.reg.map (·.2.alloc) ∧ i ∉ w.arrays.map (·.alloc)) :=
+  free_once cs (fun o ho => ⟨run_never_ub cs {} ht o ho, ha o ho⟩)
+
+/-- What the flag `allocBad` of a single tracked allocation says about the allocator's answer. -/
+theorem allocTracked_ok_iff (w : World) (a : Nat) (t : Ty) :
+    (allocTracked w a t).2 = true ↔ a = 0 ∨ w.live a = false := by
+  unfold allocTracked
+  by_cases ha : a = 0
+  · simp [ha]
+  · simp [ha]
+
+-- non-vacuity of `free_once_table`: create, consume, release through real rows
+example :
+    let cs : List Call :=
+      [ ⟨Gen.fn_c2pa_reader_new, [], true, [7]⟩,
+        ⟨Gen.fn_c2pa_builder_from_json, [⟨1, false⟩], true, [8]⟩,
+        ⟨Gen.fn_c2pa_reader_free, [⟨8, false⟩], true, []⟩,
+        ⟨Gen.fn_c2pa_builder_free, [⟨8, false⟩], true, []⟩,
+        ⟨Gen.fn_c2pa_free, [⟨7, false⟩], true, []⟩,
+        ⟨Gen.fn_c2pa_free, [⟨7, false⟩], true, []⟩ ]
+    cs.all (fun c => Gen.ffiGuards.any (fun r => r.name == c.row.name) && !c.row.params.any (·.exc)) = true ∧
+    (run {} cs).2.all (fun o => !o.allocBad) = true ∧
+    (run {} cs).1.cleanups = [(0, 7), (1, 8)] ∧
+    (run {} cs).2.map (·.fail) = [false, false, true, false, false, true] := by decide
+
+/-! ## 11. What a failed call leaves behind -/
+
+/-- A passing use other than `untrack_or_return!` / `cimpl_free` changes nothing. -/
+theorem evStep_ok_same (row : FnRow) (args : List Arg) (w w' : World) (e : Event) (f : List Nat)
+    (hn : e.use ≠ .untrack) (hf : e.use ≠ .free)
+    (h : evStep row args w e = .ok (w', f)) : w' = w ∧ f = [] := by
+  unfold evStep at h
+  cases hu : e.use <;> simp only [hu] at h
+  case untrack => exact absurd hu hn
+  case free => exact absurd hu hf
+  case validate =>
+    cases hv : validate w.reg (argOf args e.p).a e.ty <;> simp [hv] at h
+    exact ⟨h.1.symm, h.2⟩
+  case validateNonnull =>
+    by_cases ha : (argOf args e.p).a = 0
+    · simp [ha] at h; exact ⟨h.1.symm, h.2⟩
+    · cases hv : validate w.reg (argOf args e.p).a e.ty <;> simp [ha, hv] at h
+      exact ⟨h.1.symm, h.2⟩
+  case nullck => split at h <;> simp at h; exact ⟨h.1.symm, h.2⟩
+  case nullretOk => split at h <;> simp at h; exact ⟨h.1.symm, h.2⟩
+  case nullretSilent => split at h <;> simp at h; exact ⟨h.1.symm, h.2⟩
+  case nullbranch => split at h <;> simp at h; exact ⟨h.1.symm, h.2⟩
+  case cstr => split at h <;> simp at h; exact ⟨h.1.symm, h.2⟩
+  case bytes =>
+    split at h
+    · simp at h
+    · split at h <;> simp at h; exact ⟨h.1.symm, h.2⟩
+  case ifnonnull => simp at h; exact ⟨h.1.symm, h.2⟩
+  case cstropt => simp at h; exact ⟨h.1.symm, h.2⟩
+  case cstrarr => simp at h; exact ⟨h.1.symm, h.2⟩
+  case «opaque» => simp at h; exact ⟨h.1.symm, h.2⟩
+  case scalar => simp at h; exact ⟨h.1.symm, h.2⟩
+  case raw => split at h <;> simp at h; exact ⟨h.1.symm, h.2⟩
+  case rawwrite => split at h <;> simp at h; exact ⟨h.1.symm, h.2⟩
+  case fieldread => split at h <;> simp at h; exact ⟨h.1.symm, h.2⟩
+  case rawNonnull =>
+    split at h
+    · simp at h; exact ⟨h.1.symm, h.2⟩
+    · split at h <;> simp at h; exact ⟨h.1.symm, h.2⟩
+  case writeNonnull =>
+    split at h
+    · simp at h; exact ⟨h.1.symm, h.2⟩
+    · split at h <;> simp at h; exact ⟨h.1.symm, h.2⟩
+
+theorem runEvents_noconsume (row : FnRow) (args : List Arg) (es : List Event) (w : World) (fr : List Nat)
+    (hn : es.all (fun e => e.use != .untrack && e.use != .free) = true) :
+    (runEvents row args w fr es).1 = w := by
+  induction es generalizing fr with
+  | nil => rfl
+  | cons e es ih =>
+    simp only [List.all_cons, Bool.and_eq_true, bne_iff_ne, ne_eq] at hn
+    unfold runEvents
+    cases hev : evStep row args w e with
+    | error s => rfl
+    | ok p =>
+      obtain ⟨w', f⟩ := p
+      obtain ⟨h1, _⟩ := evStep_ok_same row args w w' e f hn.1.1 hn.1.2 hev
+      subst h1
+      exact ih (fr ++ f) (by simpa [List.all_eq_true] using hn.2)
+
+theorem finish_not_fail (w : World) (c : Call) (fr : List Nat) : (finish w c fr).2.fail = false := by
+  unfold finish
+  split
+  · split <;> rfl
+  · split <;> try rfl
+    · split <;> rfl
+    · split
+      · split <;> rfl
+      · rfl
+
+/-- **A call that returns the error value and consumes nothing by design has no effect at
+all**: for a row without `untrack_or_return!` / `cimpl_free` uses, a failed call leaves the
+registry, the string arrays and the cleanup history exactly as they were. -/
+theorem failed_call_no_effect (w : World) (c : Call)
+    (hn : c.row.events.all (fun e => e.use != .untrack && e.use != .free) = true)
+    (hf : (step w c).2.fail = true) : (step w c).1 = w := by
+  have hw := runEvents_noconsume c.row c.args c.row.events w [] hn
+  unfold step at hf ⊢
+  rcases hrun : runEvents c.row c.args w [] c.row.events with ⟨w1, fr, st⟩
+  rw [hrun] at hw hf
+  simp only at hw
+  subst hw
+  cases st with
+  | none =>
+    simp only at hf ⊢
+    by_cases hin : c.inner = true
+    · simp only [hin, if_true, finish_not_fail] at hf; cases hf
+    · simp [hin]
+  | some s =>
+    cases s with
+    | err e => rfl
+    | silent => rfl
+    | okEarly => simp at hf
+    | ub => rfl
+    | alt =>
+      simp only at hf ⊢
+      by_cases hin : c.inner = true
+      · simp only [hin, if_true, finish_not_fail] at hf; cases hf
+      · simp [hin]
+
+theorem evStep_ok_use (row : FnRow) (args : List Arg) (w w' : World) (e : Event) (f : List Nat)
+    (h : evStep row args w e = .ok (w', f)) :
+    (w' = w ∧ f = []) ∨ ((e.use = .untrack ∨ e.use = .free) ∧ EvEffect w (argOf args e.p).a w' f) := by
+  by_cases hu : e.use = .untrack
+  · exact Or.inr ⟨Or.inl hu, evStep_ok _ _ _ _ _ _ h⟩
+  · by_cases hf : e.use = .free
+    · exact Or.inr ⟨Or.inr hf, evStep_ok _ _ _ _ _ _ h⟩
+    · exact Or.inl (evStep_ok_same _ _ _ _ _ _ hu hf h)
+
+theorem runEvents_freed_mono (row : FnRow) (args : List Arg) (es : List Event) (w : World) (fr : List Nat)
+    (b : Nat) (hb : b ∈ fr) : b ∈ (runEvents row args w fr es).2.1 := by
+  induction es generalizing w fr with
+  | nil => exact hb
+  | cons e es ih =>
+    unfold runEvents
+    cases hev : evStep row args w e with
+    | error s => exact hb
+    | ok p => obtain ⟨w', f⟩ := p; exact ih w' (fr ++ f) (List.mem_append_left _ hb)
+
+/-- Whatever the guard sequence does to the registry entry of an address: nothing, or the
+address was the argument of a passing `untrack_or_return!` / `cimpl_free` use and is reported
+as released. -/
+theorem runEvents_consumed (row : FnRow) (args : List Arg) (es : List Event) (w : World) (fr : List Nat)
+    (b : Nat) :
+    (runEvents row args w fr es).1.reg.get b = w.reg.get b ∨
+    ((runEvents row args w fr es).1.reg.get b = none ∧ b ∈ (runEvents row args w fr es).2.1 ∧
+      ∃ e ∈ es, (e.use = .untrack ∨ e.use = .free) ∧ (argOf args e.p).a = b) := by
+  induction es generalizing w fr with
+  | nil => exact Or.inl rfl
+  | cons e es ih =>
+    unfold runEvents
+    cases hev : evStep row args w e with
+    | error s => exact Or.inl rfl
+    | ok p =>
+      obtain ⟨w', f⟩ := p
+      rcases ih w' (fr ++ f) with h1 | ⟨h1, h2, e', he', h3⟩
+      · rcases evStep_ok_use _ _ _ _ _ _ hev with ⟨hw, _⟩ | ⟨hu, heff⟩
+        · left; rw [h1, hw]
+        · cases heff with
+          | same => left; exact h1
+          | released ent ha hg =>
+            by_cases hb : b = (argOf args e.p).a
+            · right
+              refine ⟨?_, ?_, e, List.mem_cons_self .., hu, hb.symm⟩
+              · rw [h1]; simp [Reg.get_remove, hb]
+              · exact runEvents_freed_mono _ _ _ _ _ _ (by simp [hb])
+            · left; rw [h1]; simp [Reg.get_remove, hb]
+      · right; exact ⟨h1, h2, e', List.mem_cons_of_mem _ he', h3⟩
+
+/-- **What a call that returns the error value may have done**: the string arrays and the
+allocation counter are untouched, and a registry entry differs only if its address was the
+argument of an `untrack_or_return!` (ownership taken before a later guard or the SDK operation
+failed — the documented consuming functions) or `cimpl_free` use that passed; that address is
+then reported as released, exactly once (`free_once`).  Every other handle — in particular the
+bad one that made the call fail — is as it was. -/
+theorem failed_call_only_consumes_args (w : World) (c : Call) (hf : (step w c).2.fail = true) :
+    (step w c).1.arrays = w.arrays ∧ (step w c).1.next = w.next ∧
+    ∀ b, (step w c).1.reg.get b = w.reg.get b ∨
+      ((step w c).1.reg.get b = none ∧ b ∈ (step w c).2.freed ∧
+        ∃ e ∈ c.row.events, (e.use = .untrack ∨ e.use = .free) ∧ (argOf c.args e.p).a = b) := by
+  have ha := runEvents_arrays c.row c.args c.row.events w []
+  have hc := runEvents_consumed c.row c.args c.row.events w []
+  unfold step at hf ⊢
+  rcases hrun : runEvents c.row c.args w [] c.row.events with ⟨w1, fr, st⟩
+  rw [hrun] at ha hc hf
+  simp only at ha hc
+  cases st with
+  | none =>
+    simp only at hf ⊢
+    by_cases hin : c.inner = true
+    · simp only [hin, if_true, finish_not_fail] at hf; cases hf
+    · simp only [hin, Bool.false_eq_true, if_false]; exact ⟨ha.1, ha.2, hc⟩
+  | some s =>
+    cases s with
+    | err e => exact ⟨ha.1, ha.2, hc⟩
+    | silent => exact ⟨ha.1, ha.2, hc⟩
+    | okEarly => simp at hf
+    | ub => simp at hf
+    | alt =>
+      simp only at hf ⊢
+      by_cases hin : c.inner = true
+      · simp only [hin, if_true, finish_not_fail] at hf; cases hf
+      · simp only [hin, Bool.false_eq_true, if_false]; exact ⟨ha.1, ha.2, hc⟩
+
+/-- Table side: every exported function is of one of three kinds — it consumes nothing
+(`failed_call_no_effect`), it is a release function (a refused release changes nothing:
+`release_untracked_errors`, `typed_release_wrong_type_errors`), or it takes ownership of a
+handle with `untrack_or_return!` (`failed_call_only_consumes_args`) — and there are exactly
+nine of the last kind. -/
+theorem table_failure_effect_classes :
+    (Gen.ffiGuards.all fun row =>
+      row.events.all (fun e => e.use != .untrack && e.use != .free) ||
+      isReleaseRow row || row.events.any (fun e => e.use == .untrack)) = true ∧
+    (Gen.ffiGuards.filter fun row => row.events.any (fun e => e.use == .untrack)).length = 9 := by
+  constructor <;> decide +kernel
+
+-- non-vacuity: `c2pa_reader_with_stream(reader, format, bad stream)` fails and has consumed the reader
+example :
+    let w : World := { reg := [(5, ⟨.reader, 0⟩)], next := 1 }
+    let c : Call := ⟨Gen.fn_c2pa_reader_with_stream, [⟨5, false⟩, ⟨1, false⟩, ⟨9, false⟩], true, []⟩
+    (step w c).2.fail = true ∧ (step w c).2.err = .untracked ∧ (step w c).2.freed = [5] ∧
+    (step w c).1.reg.get 5 = none := by decide
 
 end C2pa.C31
